@@ -154,6 +154,34 @@ theorem gen_maf_eq_model (N : MafNet α) (tf : List α → Bij α Unit α) (x : 
   simp only [Maf.toBij, Maf.inverseAndLogDet, gen_maf_inverse_eq N tf x c hx, gen_maf_transformLd_eq]
   rfl
 
+/-! ## the constructors: guard and declared shapes -/
+
+/-- the generated `Coupling.__init__` fragment: raises (`none`) iff the transformer is not an unconditional bijection of shape
+`()`; otherwise the attributes are those of `CouplingObj.mk'` (`shape = (dim,)`, `cond_shape = (cond_dim,)` or `None`, the two
+sizes as passed) -/
+theorem gen_coupling_init_spec (t : Nw.TSpec) (d dim : Nat) (cd : Option Nat) (w dep : Nat)
+    (cnd : List α → List α) (tf : List α → Bij α Unit α) :
+    (Coupling.initShapes t d dim cd w dep = none ↔ (t.shape ≠ [] ∨ t.cond_shape ≠ none)) ∧
+    (t.shape = [] → t.cond_shape = none →
+      Coupling.initShapes t d dim cd w dep
+        = some ((CouplingObj.mk' d dim cd cnd tf).shape, (CouplingObj.mk' d dim cd cnd tf).cond_shape,
+                (CouplingObj.mk' d dim cd cnd tf).untransformed_dim, (CouplingObj.mk' d dim cd cnd tf).dim)) := by
+  constructor
+  · cases h : t.cond_shape <;> by_cases h' : t.shape = [] <;> simp [Coupling.initShapes, h, h']
+  · intro h h'
+    cases cd <;> simp [Coupling.initShapes, h, h', CouplingObj.mk']
+
+/-- the generated `MaskedAutoregressive.__init__` fragment: the same guard; `shape = (dim,)` — what `MafObj.ofNet` declares
+(`_flat_params_to_transformer` reads `self.shape[-1]`) -/
+theorem gen_maf_init_spec (t : Nw.TSpec) (w dep : Nat) (N : MafNet α) (tf : List α → Bij α Unit α) :
+    (Maf.initShapes t N.dim N.condDim w dep = none ↔ (t.shape ≠ [] ∨ t.cond_shape ≠ none)) ∧
+    (t.shape = [] → t.cond_shape = none →
+      Maf.initShapes t N.dim N.condDim w dep = some ((MafObj.ofNet N tf).shape, (MafObj.ofNet N tf).cond_shape)) := by
+  constructor
+  · cases h : t.cond_shape <;> by_cases h' : t.shape = [] <;> simp [Maf.initShapes, h, h']
+  · intro h h'
+    cases hc : N.condDim <;> simp [Maf.initShapes, h, h', MafObj.ofNet, hc]
+
 end generic
 
 /-! ## transfer of the theorems about the hand models to the generated definitions (at `ℝ`) -/
